@@ -685,6 +685,8 @@ type c15Fixture struct {
 
 	badKeys map[string]bool // payload shelf keys already reported
 	knows   map[[2]int]bool // (peer, payload root): the peer itself handed these bytes to the node
+	// supplied[i]: the payload was given to the node for transaction i itself (with it, or in a TransactionPayload for its ref)
+	supplied map[int]bool
 
 	lastState []*State
 	lastLQ    []*TransactionListQuery
@@ -745,7 +747,7 @@ func c15WellFormed(lines []string) bool {
 }
 
 func c15Setup(x *h.Ctx, c c15Case) *c15Fixture {
-	f := &c15Fixture{x: x, c: c, ctx: context.Background()}
+	f := &c15Fixture{x: x, c: c, ctx: context.Background(), supplied: map[int]bool{}}
 	sit, ok := c15KeySits[c.KeySit]
 	if !ok {
 		x.Fatalf("unknown key situation %q", c.KeySit)
@@ -943,6 +945,9 @@ func c15Setup(x *h.Ctx, c c15Case) *c15Fixture {
 			pl = b.payload
 		}
 		x.NoErr(st.Add(f.ctx, b.tx, pl), fmt.Sprintf("state.Add tx %d", i))
+		if pl != nil {
+			f.supplied[i] = true
+		}
 	}
 
 	// connections
@@ -1010,18 +1015,6 @@ func (f *c15Fixture) mustReceive(i, j int) bool {
 	list, _ := f.decryptedList(i)
 	_ = pal
 	return c15WellFormed(list)
-}
-
-// sharersAllow: the peer is entitled with respect to every private transaction in the DAG that carries the same payload.
-func (f *c15Fixture) sharersAllow(i, j int) bool {
-	for k := range f.txs {
-		if k != i && f.txs[k].spec.Priv && f.txs[k].root == f.txs[i].root && f.inDag(k) {
-			if ok, _ := f.mayReceive(k, j); !ok {
-				return false
-			}
-		}
-	}
-	return true
 }
 
 // learn records that peer j handed data to the node: if these are the bytes of a private payload, j knows them.
@@ -1174,40 +1167,51 @@ func (f *c15Fixture) checkSends(step int, op c15Op) [][]*Envelope {
 						step, op.K, hits[root], mt, j, f.c.Peers[j])
 					continue
 				}
-				// The bytes are the payload of every transaction with that payload hash. The peer must be entitled with
-				// respect to each such private transaction the node has in its DAG (if the node has none of them in its
-				// DAG it should not be handing out the bytes at all: judge all).
+				// The bytes may be carried by several transactions (same payload hash). What counts is for which of them the
+				// content was actually supplied to the node (together with the transaction or in a TransactionPayload for its
+				// ref): whoever supplied it knew the content and vouched for that transaction's participant list. A
+				// transaction that merely repeats the (public) payload hash of another one entitles nobody. So the peer is
+				// entitled iff it may receive the payload of at least one transaction in the DAG for which it was supplied.
 				answered := -1
 				for i := range f.txs {
 					if f.txs[i].tx.Ref().Equals(hash.FromSlice(env.GetTransactionPayload().TransactionRef)) {
 						answered = i
 					}
 				}
-				var judged []int
-				for _, i := range hits[root] {
-					if f.inDag(i) {
-						judged = append(judged, i)
-					}
-				}
-				if len(judged) == 0 {
-					judged = hits[root]
-				}
-				if len(judged) > 1 {
+				if len(hits[root]) > 1 {
 					f.x.Class("sent:private-payload-shared-by-several-transactions")
 				}
-				for _, i := range judged {
-					ok, why := f.mayReceive(i, j)
-					if ok {
-						continue
+				entitled := false
+				for _, i := range hits[root] {
+					if f.supplied[i] && f.inDag(i) {
+						if ok, _ := f.mayReceive(i, j); ok {
+							entitled = true
+						}
 					}
+				}
+				if entitled {
+					continue
+				}
+				desc := func(i int) string {
 					b := f.txs[i]
-					sig := "leak:TransactionPayload:" + why
-					if answered >= 0 && answered != i {
-						// the response is for another transaction with the same payload hash
-						sig = "leak:TransactionPayload:shared-hash:" + why
+					return fmt.Sprintf("tx %d (pal mode %s, lines %q, entries %v, alt %q, payload supplied for it: %v)", i, b.spec.Pal.Mode, b.spec.Pal.Lines, b.spec.Pal.To, b.spec.Pal.Alt, f.supplied[i])
+				}
+				var all []string
+				for _, i := range hits[root] {
+					all = append(all, desc(i))
+				}
+				if answered >= 0 && f.txs[answered].spec.Priv && f.txs[answered].root == root {
+					if ok, why := f.mayReceive(answered, j); !ok {
+						f.x.Violate("leak:TransactionPayload:"+why, "step %d (%s): payload of private %s sent to peer %d %+v; key situation %s",
+							step, op.K, desc(answered), j, f.c.Peers[j], f.c.KeySit)
+					} else {
+						f.x.Violate("leak:TransactionPayload:shared-hash:peer-not-listed-on-any-transaction-the-payload-was-supplied-for",
+							"step %d (%s): peer %d %+v asked for tx %d and was sent bytes that were never supplied for that transaction; it is not entitled by any transaction they were supplied for. Transactions with this payload hash: %s; key situation %s",
+							step, op.K, j, f.c.Peers[j], answered, strings.Join(all, "; "), f.c.KeySit)
 					}
-					f.x.Violate(sig, "step %d (%s): payload of private tx %d (pal mode %s, lines %q, entries %v, alt %q) sent to peer %d %+v in the response for tx %d; key situation %s",
-						step, op.K, i, b.spec.Pal.Mode, b.spec.Pal.Lines, b.spec.Pal.To, b.spec.Pal.Alt, j, f.c.Peers[j], answered, f.c.KeySit)
+				} else {
+					f.x.Violate("leak:TransactionPayload:unattributed", "step %d (%s): private payload of %s sent to peer %d %+v in a response for ref %x",
+						step, op.K, strings.Join(all, "; "), j, f.c.Peers[j], env.GetTransactionPayload().TransactionRef)
 				}
 			}
 		}
@@ -1243,7 +1247,7 @@ func (f *c15Fixture) apply(step int, op c15Op) {
 			if f.inDag(txi) && f.holds(txi) {
 				if !b.spec.Priv {
 					expect = b.payload
-				} else if f.mustReceive(txi, j) && f.sharersAllow(txi, j) {
+				} else if f.mustReceive(txi, j) && f.supplied[txi] {
 					expect = b.payload
 				}
 			}
@@ -1444,6 +1448,7 @@ func (f *c15Fixture) apply(step int, op c15Op) {
 		}
 		if matches {
 			x.Class("payload-in:matching")
+			f.supplied[s%n] = true
 			if !f.holds(s % n) {
 				x.Violate("store:matching-payload-not-stored", "step %d: peer %d sent the matching payload of tx %d which is in the DAG, but it is not stored (err %v)", step, j, s%n, err)
 			} else if got, _ := f.state.ReadPayload(f.ctx, f.txs[s%n].tx.PayloadHash()); !bytes.Equal(got, data) {
@@ -1493,6 +1498,7 @@ func (f *c15Fixture) apply(step int, op c15Op) {
 		}
 		sort.SliceStable(include, func(a, b int) bool { return f.txs[include[a]].tx.Clock() < f.txs[include[b]].tx.Clock() })
 		var list []*Transaction
+		attached := map[int]bool{}
 		for _, i := range include {
 			b := f.txs[i]
 			nt := &Transaction{Data: b.tx.Data()}
@@ -1505,6 +1511,9 @@ func (f *c15Fixture) apply(step int, op c15Op) {
 				nt.Payload = c15Payload(1000+i, true)
 			}
 			f.learn(j, nt.Payload)
+			if bytes.Equal(nt.Payload, b.payload) {
+				attached[i] = true
+			}
 			list = append(list, nt)
 		}
 		wasIn := make([]bool, n)
@@ -1516,6 +1525,12 @@ func (f *c15Fixture) apply(step int, op c15Op) {
 		for i := range f.txs {
 			if !wasIn[i] && f.inDag(i) {
 				x.Class("list-in:transaction-admitted")
+				if attached[i] {
+					f.supplied[i] = true
+				}
+				if f.txs[i].root != i && !attached[i] {
+					x.Class("list-in:shared-hash-transaction-admitted-without-payload")
+				}
 				if f.txs[i].spec.Priv && f.holds(i) {
 					x.Class("list-in:private-admitted-with-payload")
 				}
